@@ -2018,7 +2018,7 @@ impl DateTime {
         let args: DateTimeDifference = other.into();
         let span = args.until_with_largest_unit(self)?;
         if args.rounding_may_change_span() {
-            span.round(args.round.relative(self))
+            span.round(args.round.largest(args.get_largest()).relative(self))
         } else {
             Ok(span)
         }
@@ -2055,7 +2055,7 @@ impl DateTime {
         let args: DateTimeDifference = other.into();
         let span = -args.until_with_largest_unit(self)?;
         if args.rounding_may_change_span() {
-            span.round(args.round.relative(self))
+            span.round(args.round.largest(args.get_largest()).relative(self))
         } else {
             Ok(span)
         }
@@ -3212,6 +3212,15 @@ impl DateTimeDifference {
         DateTimeDifference { round: self.round.increment(increment), ..self }
     }
 
+    /// Returns the largest unit of the span computed by this configuration:
+    /// either the one set explicitly or the default.
+    #[inline]
+    fn get_largest(&self) -> Unit {
+        self.round
+            .get_largest()
+            .unwrap_or_else(|| self.round.get_smallest().max(Unit::Day))
+    }
+
     /// Returns true if and only if this configuration could change the span
     /// via rounding.
     #[inline]
@@ -3225,10 +3234,7 @@ impl DateTimeDifference {
     #[inline]
     fn until_with_largest_unit(&self, dt1: DateTime) -> Result<Span, Error> {
         let dt2 = self.datetime;
-        let largest = self
-            .round
-            .get_largest()
-            .unwrap_or_else(|| self.round.get_smallest().max(Unit::Day));
+        let largest = self.get_largest();
         if largest <= Unit::Day {
             let diff = dt2.to_nanosecond() - dt1.to_nanosecond();
             // Note that this can fail! If largest unit is nanoseconds and the
